@@ -464,8 +464,15 @@ def Decl.bind (tyName : String) : Decl → String
 
 def bindsOf (ty : String) (ds : List Decl) : Facts := ds.map (fun d => (d.name, d.bind ty))
 
+/-- global.go newContext(): `datePrototype.property["toGMTString"] = datePrototype.property["toUTCString"]` (B.2.6: one function object) -/
+def aliasGMT (t : List (Owner × Facts)) : List (Owner × Facts) :=
+  t.map (fun (o, ps) =>
+    if o = .DatePrototype then
+      (o, ps.map (fun (k, v) => if k = "toGMTString" then (k, (Spec.assoc "toUTCString" ps).getD v) else (k, v)))
+    else (o, ps))
+
 def bindTable : List (Owner × Facts) :=
-  types.flatMap (fun t =>
+  aliasGMT <| types.flatMap (fun t =>
     [(t.owner, bindsOf t.name t.props ++ (if t.owner = .global then [("console", "101:-:-:-")] else []))] ++
     (if t.hasProto then [(t.protoOwner, bindsOf t.name t.protoProps)] else []))
 
@@ -534,10 +541,7 @@ def aspect (o : Owner) (a : String) : Option String :=
 def devKind (o : Owner) (a : String) : String :=
   if o = .RegExpPrototype ∧ (a = "retest" ∨ a = "restr") then "regexp_proto_props" else "-"
 
-/-- inline.go creates one function object per yaml item, so toGMTString and toUTCString are two objects -/
-def behaviours : Facts := Spec.behaviours.map (fun (k, v) => if k = "gmt_is_utc" then (k, "false") else (k, v))
-
-def devBeh (name : String) : String := if name = "gmt_is_utc" then "gmt_not_utc" else "-"
+def behaviours : Facts := Spec.behaviours
 
 /-! ### definition.tmpl / prototype.tmpl: the object-level facts -/
 def ownerFacts : List (Owner × Facts) :=
